@@ -1,8 +1,8 @@
 SPECIFICATION FairSpec
 CONSTANTS MaxN = 2
           WrapperConsumes = FALSE
-          ReleaseWakesWaiter = FALSE
-          SentinelOnlyIfEmpty = FALSE
+          ReleaseWakesWaiter = TRUE
+          SentinelOnlyIfEmpty = TRUE
           PauseCoversEncode = FALSE
 INVARIANT TypeOK
 INVARIANT C07_NeverSwallowed
